@@ -1,4 +1,6 @@
+import operator
 from collections.abc import Iterable
+from functools import reduce
 from itertools import zip_longest
 from numbers import Integral
 
@@ -8,6 +10,7 @@ from numba.typed import List
 import numpy as np
 
 from .._slicing import normalize_index
+from .._utils import can_store
 from .convert import convert_to_flat, is_sorted, uncompress_dimension
 
 
@@ -162,7 +165,9 @@ def _getitem(x, key, orig_key):
         compressed_axes = (0,)  # defaults to 0
         row_size = starts.size
 
-    indptr = np.empty(row_size + 1, dtype=x.indptr.dtype)
+    # the selection is computed in intp: repeated index entries can give it more rows, columns or stored
+    # elements than the operand's index type can count
+    indptr = np.empty(row_size + 1, dtype=np.intp)
     indptr[0] = 0
     if pos_slice:
         arg = get_slicing_selection(x.data, x.indices, indptr, starts, ends, cols)
@@ -179,7 +184,7 @@ def _getitem(x, key, orig_key):
             indptr = None
         else:
             indices = uncompressed % size
-            indptr = np.empty(shape[0] + 1, dtype=x.indptr.dtype)
+            indptr = np.empty(shape[0] + 1, dtype=np.intp)
             indptr[0] = 0
             np.cumsum(np.bincount(uncompressed // size, minlength=shape[0]), out=indptr[1:])
     if not np.any(compressed_inds):
@@ -187,12 +192,10 @@ def _getitem(x, key, orig_key):
             indptr = None
         else:
             uncompressed = indices // size
-            indptr = np.empty(shape[0] + 1, dtype=x.indptr.dtype)
+            indptr = np.empty(shape[0] + 1, dtype=np.intp)
             indptr[0] = 0
             np.cumsum(np.bincount(uncompressed, minlength=shape[0]), out=indptr[1:])
-            indices = (indices % size).astype(indices.dtype, copy=False)
-
-    arg = (data, indices, indptr)
+            indices = indices % size
 
     # if there were Nones in the key, we insert them back here
     compressed_axes = tuple(np.array(compressed_axes))
@@ -200,8 +203,21 @@ def _getitem(x, key, orig_key):
 
     if len(shape) == 1:
         compressed_axes = None
+        n_rows, n_cols = 0, shape[0]
+    else:
+        n_rows = len(indptr) - 1
+        n_cols = reduce(operator.mul, (s for i, s in enumerate(shape) if i not in compressed_axes), 1)
 
-    return GCXS(arg, shape=shape, compressed_axes=compressed_axes, fill_value=x.fill_value)
+    # keep the operand's index type unless the selection outgrew it
+    idx_dtype = x.indices.dtype
+    needed = max(n_rows, n_cols, len(indices))
+    if not can_store(idx_dtype, needed):
+        idx_dtype = np.min_scalar_type(needed)
+    indices = indices.astype(idx_dtype, copy=False)
+    if indptr is not None:
+        indptr = indptr.astype(idx_dtype, copy=False)
+
+    return GCXS((data, indices, indptr), shape=shape, compressed_axes=compressed_axes, fill_value=x.fill_value)
 
 
 @numba.jit(nopython=True, nogil=True)
